@@ -49,8 +49,7 @@ Lemma nf_check_inv c oi g ty sent :
      nf_rem_ctx_ok c (oi_ctx oi) = true /\
      (forall t, g_rem g = Some t -> t + nfc_interval c <= oi_now oi) /\
      (nfc_interval c <= 0 -> g_ps g = true -> g_bad g = true)) /\
-  (nf_type_eqb ty NfRecovery || nf_type_eqb ty NfAck = true ->
-     forallb (fun u => nf_okB c oi g ty u || nf_mem u (g_all g)) sent = true).
+  (nf_type_eqb ty NfRecovery || nf_type_eqb ty NfAck = true -> forallb (nf_okB c oi g ty) sent = true).
 Proof.
   unfold nf_check.
   destruct (forallb (nf_okA c oi ty) sent) eqn:K1; cbn [negb]; [|discriminate].
@@ -75,15 +74,8 @@ Proof.
         intros _. split; [reflexivity|]. split; [auto|]. split; discriminate.
   - cbn [andb]. intros H. split; [reflexivity|]. split; [discriminate|]. split; [discriminate|].
     intros Era. rewrite Era in H. cbn [andb] in H.
-    destruct (forallb (nf_okB c oi g ty) sent) eqn:KB; cbn [negb] in H.
-    + apply forallb_forall. intros u Hu. rewrite forallb_forall in KB. rewrite (KB u Hu). reflexivity.
-    + destruct (forallb (fun u => nf_okB c oi g ty u || nf_mem u (g_all g)) sent); [reflexivity|discriminate].
+    destruct (forallb (nf_okB c oi g ty) sent); [reflexivity|discriminate].
 Qed.
-
-(* the recorded finding "stale-notified-users": u is still listed as notified although the Recovery
-   notification that ended that incident was processed (and dropped by the notification's type filter) *)
-Definition nf_stale (ty : nf_type) (u : Z) (g : nf_ghost) : bool :=
-  nf_mem u (g_all g) && negb (nf_mem u (nf_inc_set ty g)).
 
 (* the recorded finding "nomore-reset": after the incident's Problem a non-Custom, non-Problem, non-Recovery
    notification passed the notification's filters *)
@@ -95,27 +87,20 @@ Variables (c : nf_cfg) (h : list nf_op).
 Theorem nf_incident g oi ty sent u :
   In (g, oi, NfoDone ty sent) (nf_run_points c h) ->
   ty = NfRecovery \/ ty = NfAck -> In u sent ->
-  nf_stale ty u g = false ->
   exists ur, In ur (cx_users (oi_ctx oi)) /\ nfu_id ur = u /\ nfu_enable ur = true /\
              (nf_mem u (nf_inc_set ty g) = true \/ nf_passes (nfu_types ur) 32 = false).
 Proof.
-  intros HP Hty Hu Hst.
+  intros HP Hty Hu.
   pose proof (nf_points_ok c h nf_init nf_ghost0 _ (nf_init_inv c) HP) as HB. cbn [fst snd] in HB.
-  apply nf_check_inv in HB. destruct HB as (K1 & _ & _ & K2).
+  apply nf_check_inv in HB. destruct HB as (_ & _ & _ & K2).
   assert (nf_type_eqb ty NfRecovery || nf_type_eqb ty NfAck = true) as Era by (destruct Hty; subst ty; reflexivity).
-  specialize (K2 Era). rewrite forallb_forall in K1, K2.
-  specialize (K1 u Hu). specialize (K2 u Hu).
-  apply orb_true_iff in K2. destruct K2 as [KB|KM].
-  - unfold nf_okB in KB. apply existsb_exists in KB. destruct KB as (ur & I & Q).
-    fold (nf_inc_set ty g) in Q.
-    apply andb_true_iff in Q. destruct Q as [Q Q4]. apply andb_true_iff in Q. destruct Q as [Q _].
-    apply andb_true_iff in Q. destruct Q as [Q1 Q2].
-    exists ur. repeat split; auto; [lia|].
-    apply orb_true_iff in Q4. destruct Q4 as [Q4|Q4]; [left; assumption|right; apply negb_true_iff; assumption].
-  - unfold nf_okA in K1. apply existsb_exists in K1. destruct K1 as (ur & I & Q).
-    apply andb_true_iff in Q. destruct Q as [Q _]. apply andb_true_iff in Q. destruct Q as [Q1 Q2].
-    exists ur. repeat split; auto; [lia|]. left.
-    unfold nf_stale in Hst. rewrite KM in Hst. cbn in Hst. apply negb_false_iff in Hst. assumption.
+  specialize (K2 Era). rewrite forallb_forall in K2. specialize (K2 u Hu).
+  unfold nf_okB in K2. apply existsb_exists in K2. destruct K2 as (ur & I & Q).
+  fold (nf_inc_set ty g) in Q.
+  apply andb_true_iff in Q. destruct Q as [Q Q4]. apply andb_true_iff in Q. destruct Q as [Q _].
+  apply andb_true_iff in Q. destruct Q as [Q1 Q2].
+  exists ur. repeat split; auto; [lia|].
+  apply orb_true_iff in Q4. destruct Q4 as [Q4|Q4]; [left; assumption|right; apply negb_true_iff; assumption].
 Qed.
 
 Theorem nf_no_duplicate g oi sent u :
@@ -147,7 +132,7 @@ Qed.
 Theorem nf_sent_filters g oi ty sent u :
   In (g, oi, NfoDone ty sent) (nf_run_points c h) -> In u sent ->
   exists ur, In ur (cx_users (oi_ctx oi)) /\ nfu_id ur = u /\ nfu_enable ur = true /\
-             (oi_mayforce oi = false -> nf_full_ok c (oi_now oi) (oi_ctx oi) ty ur = true).
+             (nf_mayforce oi ty = false -> nf_full_ok c (oi_now oi) (oi_ctx oi) ty ur = true).
 Proof.
   intros HP Hu.
   pose proof (nf_points_ok c h nf_init nf_ghost0 _ (nf_init_inv c) HP) as HB. cbn [fst snd] in HB.
@@ -267,6 +252,23 @@ Proof.
     rewrite L in Hc. apply Hc. rewrite Hn. unfold s0. rewrite nf_user_sends_forced. exact I3.
 Qed.
 
+(* times.begin: exactly what a deferral does, from any state *)
+Theorem nf_begin_deferred c now x ty force rem s :
+  let r := nf_begin c now x ty force rem s in
+  ne_deferred (snd r) = true ->
+  ty = NfProblem /\ force = false /\ ne_sent (snd r) = [] /\ ne_reached (snd r) = false /\
+  (exists b, nfc_begin c = Some b /\ 0 <= b /\ now < cx_lhsc x + b /\ nf_next (fst r) = cx_lhsc x + b + 1) /\
+  nf_nomore (fst r) = false /\ nf_npu (fst r) = nf_npu s /\ nf_lns (fst r) = nf_lns s.
+Proof.
+  cbv zeta. unfold nf_begin. destruct (nf_pre c now x ty force) eqn:G; cbn [snd fst ne_deferred nf_mk_exec]; try discriminate.
+  - destruct (nf_loop _ _ _ _ _ _ _ _). cbn. discriminate.
+  - intros _. destruct (nf_pre_begin_defer _ _ _ _ _ G) as (Bc & Tp & Ff). subst ty.
+    cbn [nf_type_eqb nf_type_bit Z.eqb Pos.eqb ne_sent ne_reached].
+    repeat split; auto.
+    apply andb_true_iff in Bc. destruct Bc as [B1 B2]. unfold nf_opt_active, nf_opt_val in *.
+    destruct (nfc_begin c) as [b|]; [|discriminate]. exists b. repeat split; auto; lia.
+Qed.
+
 (* the reminder part of the timer handler, from any state *)
 Theorem nf_tick_rem_conditions c now x s s' e :
   nf_tick_rem c now x s = (s', [NfEvExec e]) ->
@@ -305,8 +307,9 @@ Definition nf_w_ctx (raw : Z) (acked : bool) : nf_ctx :=
      cx_flapping := false; cx_ck_supp_problem := false; cx_paused := false; cx_ha := false; cx_auth := true;
      cx_per_closed := false; cx_has_cr := true; cx_cr_ok := raw =? 0; cx_soon := false |}.
 
-(* F-C03-a: Notification.types without Recovery; Problem -> user 1; the Recovery is dropped by the type filter
-   before notified_problem_users is cleared; the Acknowledgement of a later, unnotified problem reaches user 1 *)
+(* F-C03-a (fixed): Notification.types without Recovery; Problem -> user 1; the Recovery is dropped by the type
+   filter; the Acknowledgement of a later problem that user 1 was not notified about (acknowledged object,
+   Problem never requested) *)
 Definition nf_w_stale_cfg : nf_cfg :=
   {| nfc_svc := true; nfc_interval := 30; nfc_types := 511 - 64; nfc_states := -1; nfc_begin := None; nfc_end := None |}.
 Definition nf_w_stale_hist : list nf_op :=
@@ -314,20 +317,12 @@ Definition nf_w_stale_hist : list nf_op :=
    NfRequest 2000000010 (nf_w_ctx 0 false) NfRecovery false;
    NfRequest 2000000020 (nf_w_ctx 2 true) NfAck false].
 
-Theorem nf_stale_refuted :
-  exists g oi sent u,
-    In (g, oi, NfoDone NfAck sent) (nf_run_points nf_w_stale_cfg nf_w_stale_hist) /\ In u sent /\
-    nf_mem u (nf_inc_set NfAck g) = false /\
-    (forall ur, In ur (cx_users (oi_ctx oi)) -> nfu_id ur = u -> nf_passes (nfu_types ur) 32 = true) /\
-    nf_stale NfAck u g = true /\
-    snd (nf_oracle nf_w_stale_cfg (nf_model_trace nf_w_stale_cfg nf_init nf_w_stale_hist)) = Some (2, 100).
-Proof.
-  eexists. eexists. exists [1]. exists 1. split.
-  - vm_compute. right. right. left. reflexivity.
-  - split; [left; reflexivity|]. split; [vm_compute; reflexivity|]. split.
-    + intros ur [<-|[]] _. vm_compute. reflexivity.
-    + split; vm_compute; reflexivity.
-Qed.
+(* with the fix c30b63e the Recovery dropped by the type filter clears notified_problem_users: the
+   Acknowledgement of the next, unnotified problem reaches nobody and the oracle reports nothing *)
+Lemma nf_stale_fixed :
+  nf_oracle nf_w_stale_cfg (nf_model_trace nf_w_stale_cfg nf_init nf_w_stale_hist) = (None, None) /\
+  map (fun p => snd p) (nf_run_points nf_w_stale_cfg nf_w_stale_hist) = [NfoDone NfProblem [1]; NfoClr; NfoDone NfAck []].
+Proof. split; vm_compute; reflexivity. Qed.
 
 (* F-C03-b: interval = 0; Problem sent (no_more_notifications = true); a DowntimeStart notification passes the
    filters and clears the flag; the next timer tick sends a reminder *)
